@@ -377,9 +377,24 @@ Val binop(State &S, unsigned op, const Val &a, const Val &b, unsigned w, const D
   case Instruction::Mul:
     if (nsw) sym_ub(S, !(z3::expr(Z, Z3_mk_bvmul_no_overflow(ctx, x, y, true)) && z3::expr(Z, Z3_mk_bvmul_no_underflow(ctx, x, y))), "SIGNED-OVERFLOW", "symbolic mul");
     r = mks(x * y, w); break;
-  case Instruction::UDiv: sym_ub(S, y == Z.bv_val(0, w), "DIV-BY-ZERO", "symbolic udiv"); r = mks(z3::udiv(x, y), w); break;
+  case Instruction::UDiv: case Instruction::URem:
+    if (!b.sym() && b.c > 1 && a.sym()) {
+      // division by a constant: x = q*c + r, r < c, q <= max/c characterises q and r exactly and
+      // bit-blasts to a constant multiplier instead of a divider circuit
+      static u64 fresh = 0;
+      auto key = std::make_pair(a.e->id(), b.c);
+      auto it = S.divcache.find(key);
+      if (it == S.divcache.end()) {
+        z3::expr q = Z.bv_const(("q!" + std::to_string(fresh)).c_str(), w), rr = Z.bv_const(("r!" + std::to_string(fresh)).c_str(), w); fresh++;
+        z3::expr cst = Z.bv_val((uint64_t)b.c, w);
+        addpc(S, x == q * cst + rr && z3::ult(rr, cst) && z3::ule(q, Z.bv_val((uint64_t)(maskw(w) / b.c), w)));
+        it = S.divcache.emplace(key, std::make_pair(q, rr)).first;
+      }
+      r = mks(op == Instruction::UDiv ? it->second.first : it->second.second, w); break;
+    }
+    sym_ub(S, y == Z.bv_val(0, w), "DIV-BY-ZERO", op == Instruction::UDiv ? "symbolic udiv" : "symbolic urem");
+    r = mks(op == Instruction::UDiv ? z3::udiv(x, y) : z3::urem(x, y), w); break;
   case Instruction::SDiv: sym_ub(S, y == Z.bv_val(0, w), "DIV-BY-ZERO", "symbolic sdiv"); r = mks(x / y, w); break;
-  case Instruction::URem: sym_ub(S, y == Z.bv_val(0, w), "DIV-BY-ZERO", "symbolic urem"); r = mks(z3::urem(x, y), w); break;
   case Instruction::SRem: sym_ub(S, y == Z.bv_val(0, w), "DIV-BY-ZERO", "symbolic srem"); r = mks(z3::srem(x, y), w); break;
   case Instruction::And: r = mks(x & y, w); break;
   case Instruction::Or: r = mks(x | y, w); break;
